@@ -1065,6 +1065,33 @@ bool Parser::parseDeclarationSpecifiers(DeclarationSyntax*& decl,
     bool seenType = false;
     while (true) {
         SpecifierSyntax* spec = nullptr;
+        // The specifiers come in any order (6.7p1): after a tag declaration, those
+        // that are not type specifiers are taken as before it.
+        if (decl) {
+            switch (peek().kind()) {
+                case SyntaxKind::Keyword_typedef:
+                case SyntaxKind::Keyword_extern:
+                case SyntaxKind::Keyword_static:
+                case SyntaxKind::Keyword_auto:
+                case SyntaxKind::Keyword_register:
+                case SyntaxKind::Keyword__Thread_local:
+                case SyntaxKind::Keyword_ExtGNU___thread:
+                case SyntaxKind::Keyword_inline:
+                case SyntaxKind::Keyword__Noreturn:
+                case SyntaxKind::Keyword_const:
+                case SyntaxKind::Keyword_volatile:
+                case SyntaxKind::Keyword_restrict:
+                case SyntaxKind::Keyword__Alignas:
+                case SyntaxKind::Keyword_ExtGNU___attribute__:
+                    break;
+                case SyntaxKind::Keyword__Atomic:
+                    if (peek(2).kind() != SyntaxKind::OpenParenToken)
+                        break;
+                    [[fallthrough]];
+                default:
+                    return true;
+            }
+        }
         switch (peek().kind()) {
             // declaration-specifiers -> storage-class-specifier
             case SyntaxKind::Keyword_typedef:
@@ -1255,9 +1282,6 @@ bool Parser::parseDeclarationSpecifiers(DeclarationSyntax*& decl,
 
         *specList_cur = makeNode<SpecifierListSyntax>(spec);
         specList_cur = &(*specList_cur)->next;
-
-        if (decl)
-            return parseTypeQualifiersAndAttributes(*specList_cur);
     }
 }
 
@@ -1281,6 +1305,24 @@ bool Parser::parseSpecifierQualifierList(DeclarationSyntax*& decl,
     bool seenType = false;
     while (true) {
         SpecifierSyntax* spec = nullptr;
+        // The specifiers come in any order (6.7.2.1): after a tag declaration, those
+        // that are not type specifiers are taken as before it.
+        if (decl) {
+            switch (peek().kind()) {
+                case SyntaxKind::Keyword_const:
+                case SyntaxKind::Keyword_volatile:
+                case SyntaxKind::Keyword_restrict:
+                case SyntaxKind::Keyword__Alignas:
+                case SyntaxKind::Keyword_ExtGNU___attribute__:
+                    break;
+                case SyntaxKind::Keyword__Atomic:
+                    if (peek(2).kind() != SyntaxKind::OpenParenToken)
+                        break;
+                    [[fallthrough]];
+                default:
+                    return true;
+            }
+        }
         switch (peek().kind()) {
             // declaration-specifiers -> type-qualifier
             case SyntaxKind::Keyword_const:
@@ -1415,9 +1457,6 @@ bool Parser::parseSpecifierQualifierList(DeclarationSyntax*& decl,
 
         *specList_cur = makeNode<SpecifierListSyntax>(spec);
         specList_cur = &(*specList_cur)->next;
-
-        if (decl)
-            return parseTypeQualifiersAndAttributes(*specList_cur);
     }
 }
 
